@@ -24,6 +24,13 @@ def gen_config(rng):
                 m[v] = {p: float(rng.choice([1, 1, -1, 2, 0.5])) for p in ps}
         maps.append(m)
     pairs = set()
+    if nvar >= 2 and rng.random() < 0.4:
+        # two variables that BOTH drive the same two parameters of one operator, non-proportionally
+        j = rng.choice([0, 1, 2, 3])
+        p1, p2 = rng.sample(ops[j][1], 2)
+        maps[j]["u"] = {p1: 1.0, p2: float(rng.choice([2, 3, -1]))}
+        maps[j]["v"] = {p1: float(rng.choice([2, -2, 0.5])), p2: 1.0}
+        pairs.add(("u", "v"))
     for _ in range(rng.randint(1, 3)):
         a, b = rng.choice(vars_), rng.choice(vars_)
         pairs.add(tuple(sorted((a, b))))
